@@ -266,6 +266,12 @@ ssize_t send(int fd, const void *buf, size_t len, int flags)
         alarm_add("c08-cleanup-io", fd, "send(%zu bytes) on descriptor %d during xcm_cleanup (the connection belongs to the owner process)", len, fd);
     if (fail_now(VS_SEND, fd)) { errno = p->fail_errno; return -1; }
     bool data = e && e->kind != 0 && !e->is_ctl;
+    if (p && data && len > 0 && p->forced_refusals > 0) {
+        p->forced_refusals--; p->n_eagain_send++;
+        if (trk_mid(&e->out)) p->refused_mid_frame++;
+        vs_note("send fd%d len%zu -> forced EAGAIN (%s ep%d)", fd, len, cur.api, cur.ep);
+        errno = EAGAIN; return -1;
+    }
     if (p && data && !p->quiet && len > 0) {
         bool refuse = false;
         if (p->pending_refuse) { refuse = true; p->pending_refuse = false; }
